@@ -228,7 +228,7 @@ func (c Case) faultKind() string {
 // Run is the check entry point.
 func Run(r *vk.Run) {
 	world.Silence()
-	r.Rule = "seeded runs of a real aggregator with MaxPendingHeadersAndData = limit in {1,2,3,5}: rounds of (one header-submission iteration, one data-submission iteration, 1-4 production steps); a DA outage of 0-6 rounds (all submissions fail, or only the header / only the data stream), then an accepting DA layer; block patterns all-empty, all-non-empty, alternating, long empty tails; initial height {1,4}; in half of the runs the node is restarted every 1-4 rounds (clean, or by a crash inside a production step after 0-6 durable writes), also during the outage. Safety per production step: declined => >= limit blocks are beyond the accepted prefix of the header or of the data stream (empty blocks need no data blob); produced => fewer than limit. Liveness: R accepting rounds raise the height by >= R-1. non-trivial = at least one declined step; distinct by parameter tuple. LIVE runs: the node's own HeaderSubmissionLoop and DataSubmissionLoop run (DA block time 1 ms) concurrently with production attempts; cycles of {DA refuses everything until the limit is reached and N submissions were refused (N up to 190: several whole failed submission rounds of 30 attempts), DA accepts again while production is attempted continuously}; declined => the node's own pending counts read just before the step reach the limit; produced => counts read just after do not exceed it; after the outage 8000 production attempts must raise the height by limit+1"
+	r.Rule = "seeded runs of a real aggregator with MaxPendingHeadersAndData = limit in {1,2,3,5}: rounds of (one header-submission iteration, one data-submission iteration, 1-4 production steps); a DA outage of 0-6 rounds (all submissions fail, or only the header / only the data stream), then an accepting DA layer; block patterns all-empty, all-non-empty, alternating, long empty tails; initial height {1,4}; in half of the runs the node is restarted every 1-4 rounds (clean, or by a crash inside a production step after 0-6 durable writes), also during the outage. Safety per production step: declined => >= limit blocks are beyond the accepted prefix of the header or of the data stream (empty blocks need no data blob); produced => fewer than limit. Liveness: R accepting rounds raise the height by >= R-1. non-trivial = at least one declined step; distinct by parameter tuple. LIVE runs: the node's own HeaderSubmissionLoop and DataSubmissionLoop run (DA block time 1 ms) concurrently with production attempts; cycles of {DA refuses everything until the limit is reached and N submissions were refused (N up to 190: several whole failed submission rounds of 30 attempts), DA accepts again while production is attempted continuously}; declined => the node's own pending counts read just before the step reach the limit; produced => counts read just after do not exceed it; after the outage 8000 production attempts must raise the height by limit+1. BUSY/CANCELLING DA (live runs of their own): after the outage of some cycles the DA double accepts but confirms every submission only 5-20 ms (= configured DA block times) after it was sent, honouring the caller's context (a caller that gives up first gets its context's error, nothing is stored; judged by the clock); outages whose refusals are cancellations (context.Canceled / the DA interface's ErrContextCanceled) while the node was not asked to stop; same oracle. LOOP runs: the node's own AggregationLoop (normal and lazy, idle interval 1 h) with both submission loops: production comes to rest at the limit during an outage, one more request is declined, after the outage the chain must grow within 15 s; in the reaper variant (lazy) the requests are transactions put into the execution double's mempool and announced by the node's own Reaper, one at a time so that no attempt is outstanding when the limit is reached, the last one while production is paused"
 	r.Assume("a submission round is atomic in the harness: header iteration directly followed by data iteration (the two ticker loops of the node have the same period); production steps do not interleave between them")
 	rng := r.Rand("cases")
 	n := r.N(300, 25000)
@@ -244,9 +244,17 @@ func Run(r *vk.Run) {
 	for i := 0; i < r.N(300, 4000); i++ {
 		live = append(live, genLive(rng, n+i, r.Quick()))
 	}
+	busyRng := r.Rand("live-busy-da")
+	for i := 0; i < r.N(24, 300); i++ {
+		live = append(live, genLiveBusy(busyRng, n+10000+i))
+	}
 	var loopCases []LoopCase
 	for i := 0; i < r.N(24, 300); i++ {
 		loopCases = append(loopCases, genLoop(rng, n+5000+i))
+	}
+	reaperRng := r.Rand("loop-reaper")
+	for i := 0; i < r.N(8, 80); i++ {
+		loopCases = append(loopCases, genLoopReaper(reaperRng, n+20000+i))
 	}
 	var wg sync.WaitGroup
 	ch := make(chan any)
@@ -278,6 +286,8 @@ func Run(r *vk.Run) {
 	close(ch)
 	wg.Wait()
 	r.Require("live-resumes", int64(len(live)))
+	r.Require("live-busy-da-after-outage", 10)
+	r.Require("loop-reaped-during-pause", 8)
 	r.Require("live-declined-justified", 100)
 	r.Require("declined-justified", 50)
 	r.Require("resumes", int64(n))
